@@ -355,6 +355,13 @@ func (simTransport) RoundTrip(req *http.Request) (*http.Response, error) {
 		return nil, err
 	}
 	ev := &httpEvent{host: host, url: req.URL.String(), reqs: reqs, batch: batch}
+	if st := w.c08; st != nil && !batch && len(reqs) == 1 && len(reqs[0].Params) > 0 && string(reqs[0].Params[0]) == `"latest"` {
+		// "before the source is asked again": the source is being asked from
+		// the moment the request is on its way, not only once it is answered
+		st.mu.Lock()
+		st.headHits = 0
+		st.mu.Unlock()
+	}
 	key := "http " + host + " " + node.Summary(reqs)
 	if !batch && string(reqs[0].ID) == `"1"` {
 		key += " (poller)" // the head poller uses the fixed request id "1"
